@@ -15,6 +15,7 @@ from concurrent.futures import ThreadPoolExecutor
 sys.path.insert(0, os.path.join(os.path.dirname(os.path.abspath(__file__)), "..", "..", "lib"))
 import vplib as V
 import lspdrive as L
+import scopedrive as D
 
 SPEC = os.path.join(V.SPEC, "Edits")
 
@@ -58,6 +59,29 @@ def gen_buffer(rnd, ascii_only):
     return text
 
 
+def move_buffers():
+    """The family that makes the formatter MOVE text across an unchanged piece (diff shape Delete X, Equal E, Insert X:
+    the handler's three-chunk merge rule, Edits!EditsFrom first arm) with further edits after it: a label on its own line
+    joined with the following instruction, two statements on one line split apart, a brace moved - each followed by
+    statements that need re-indentation or lose trailing blanks.  Enumerated, not sampled."""
+    out = []
+    pres = ["", "    lda #0\n    sta $d020\n", "nop\n"]
+    sufs = ["    jmp loop\n", "  jmp loop  \n\tinx\n", "jmp loop\n\n\n  rts \n"]
+    for pre in pres:
+        for suf in sufs:
+            for ws in (" ", "  ", "\t", "    "):
+                for trail in ("", " ", "  "):
+                    out.append(pre + "loop:\n" + ws + "inc $d021" + trail + "\n" + suf)
+            for two in (".byte 1,2 .byte 1,2", "lda #1 sta $d020", "inx  iny ", "loop2: {\n nop }", "loop2:\n{\n nop\n}"):
+                out.append(pre + "loop: nop\n" + two + "\n" + suf)
+    return out
+
+
+def is_rotation(old, new):
+    """old = X+E, new = E+X with X, E non-empty: the footprint of the merge rule (coverage bookkeeping only)"""
+    return old != new and len(old) == len(new) and any(old[k:] + old[:k] == new for k in range(1, len(old)))
+
+
 def mos_format(mos, wd, n, text):
     d = os.path.join(wd, "f%05d" % n)
     shutil.rmtree(d, ignore_errors=True)
@@ -93,6 +117,12 @@ def main(tier):
     wd = V.fresh_dir("C17")
     nbuf = 250 if tier == "quick" else 2500
     bufs = [gen_buffer(rnd, ascii_only=(i % 2 == 0)) for i in range(nbuf)]
+    mv = move_buffers()
+    if tier == "quick":
+        rnd.shuffle(mv)
+        mv = mv[:110]
+    bufs += mv
+    nbuf = len(bufs)
     root = os.path.join(wd, "proj")
     os.makedirs(root)
     open(os.path.join(root, "mos.toml"), "w").write('[build]\nentry = "main.asm"\n')
@@ -126,6 +156,18 @@ def main(tier):
         return out
     with ThreadPoolExecutor(max_workers=6) as ex:
         recs = [x for lst in ex.map(chunk, range(6)) for x in lst]
+    nmerge = 0
+    for x in recs:
+        eds = x["_raw"] or []
+        t = x["_text"]
+        for k, e in enumerate(eds[:-1]):
+            a = D.pos_to_index(t, e["range"]["start"]["line"], e["range"]["start"]["character"])
+            b = D.pos_to_index(t, e["range"]["end"]["line"], e["range"]["end"]["character"])
+            if t.isascii() and is_rotation(t[a:b], e["newText"]):
+                nmerge += 1
+                break
+    if nmerge == 0:
+        raise V.ToolError("vacuity: no reply contains a merged (delete X, keep E, insert X) edit followed by a later edit")
     extra = {x["id"]: {"buffer": x.pop("_text"), "mos_format": x.pop("_fmt"), "edits": x.pop("_raw")} for x in recs}
     njudged = sum(1 for x in recs if x["answered"] and x["fmtOk"])
     V.log("[C17] %d buffers, %d requests, %d answered with edits on error-free buffers" % (nbuf, len(recs), njudged))
@@ -158,7 +200,9 @@ def main(tier):
     rep.cov["traces_validated_against_impl"] = njudged
     rep.cov["evaluations"] = len(recs)
     rep.cov["distinct_nontrivial"] = len({json.dumps(x["doc"]) for x in recs if x["answered"] and x["fmtOk"] and x["edits"]})
+    rep.cov["merge_rule_then_later_edit"] = nmerge
     rep.cov["rule"] = ("seeded buffers of 1-8 statements with random spacing, line/block comments, blank lines, CRLF (25 %), non-ASCII text in comments and strings (every second buffer), "
+                       "the enumerated family of buffers in which the formatter moves text across an unchanged piece (label line joined with the next instruction, two statements on one line) followed by more edits, "
                        "and the already formatted text of each; textDocument/formatting and onTypeFormatting on the real server vs `mos format` on the same file; distinct = distinct buffers with a non-empty edit list")
     for x in recs[:3]:
         rep.sample({"buffer": extra[x["id"]]["buffer"], "edits": len(x["edits"])})
